@@ -891,6 +891,10 @@ func optimizerSlotCoverage(c *Ctx, g *load.G, rule string) {
 			for _, p := range kp {
 				ok := false
 				for _, e := range p {
+					// the list helper replaces the elements in place: calling it on the slot is enough
+					if s.list && listHelperOK && (e.Kind == "call" || e.Kind == "ccall") && stripAsserts(e.Text) == recv+".optimizeRules("+target+")" {
+						ok = true
+					}
 					if e.Kind != "set" {
 						continue
 					}
@@ -911,4 +915,105 @@ func optimizerSlotCoverage(c *Ctx, g *load.G, rule string) {
 		}
 	}
 	r.Check(len(bad) == 0, rule, "G.ast.optimize:every-operand-slot-offered-to-inlining", "", g.Where(fd.Pos()), fmt.Sprintf("%d operand slots of %d kinds, each stored from optimizeRule on every path of its case", nSlots, len(names)), strings.Join(uniq(bad), "; "))
+}
+
+// cloneKeepsFields (C09-h): a clone is the node it was made from. Every `&T{…}` built in cloneExpr (and its helpers)
+// for an expression kind T lists every field of T - taken from the same field of the source - except the fields that
+// only the analysis passes store (the Nullable flags, recomputed after optimization). A field that is left out
+// silently becomes its zero value in every inlined copy: a throw without its label, a literal without its
+// ignore-case flag.
+func cloneKeepsFields(c *Ctx, g *load.G, rule string) {
+	r := c.R
+	ap := g.Pkg("ast")
+	ce := load.FuncDecl(ap, "", "cloneExpr")
+	if ce == nil {
+		r.Fatal("anchor ast.cloneExpr not found")
+		return
+	}
+	kinds, _ := c.exprKinds()
+	isKind := map[string]*types.Struct{}
+	for _, k := range kinds {
+		if st, ok := k.Named.Underlying().(*types.Struct); ok {
+			isKind[k.Name] = st
+		}
+	}
+	// fields the analysis passes derive: stored by a NullableVisit / InitialNames / IsNullable method
+	derived := map[string]bool{}
+	for _, fd := range load.AllFuncDecls(ap) {
+		if fd.Body == nil || fd.Recv == nil {
+			continue
+		}
+		switch fd.Name.Name {
+		case "NullableVisit", "IsNullable", "InitialNames":
+		default:
+			continue
+		}
+		rt := strings.TrimPrefix(nospace(fd.Recv.List[0].Type), "*")
+		ast.Inspect(fd.Body, func(n ast.Node) bool {
+			if as, ok := n.(*ast.AssignStmt); ok {
+				for _, l := range as.Lhs {
+					if sel, ok := l.(*ast.SelectorExpr); ok {
+						if id, ok := sel.X.(*ast.Ident); ok && len(fd.Recv.List[0].Names) == 1 && id.Name == fd.Recv.List[0].Names[0].Name {
+							derived[rt+"."+sel.Sel.Name] = true
+						}
+					}
+				}
+			}
+			return true
+		})
+	}
+	var bad []string
+	n := 0
+	for _, fd := range withHelpers(ap, ce) {
+		ast.Inspect(fd.Body, func(nd ast.Node) bool {
+			cl, ok := nd.(*ast.CompositeLit)
+			if !ok {
+				return true
+			}
+			tn := namedOf(ap.TypesInfo.TypeOf(cl))
+			st := isKind[tn]
+			if st == nil {
+				return true
+			}
+			n++
+			keys := map[string]string{}
+			positional := false
+			for _, el := range cl.Elts {
+				if kv, ok := el.(*ast.KeyValueExpr); ok {
+					keys[nospace(kv.Key)] = nospace(kv.Value)
+				} else {
+					positional = true
+				}
+			}
+			if positional {
+				return true // every field is given, in order (the compiler checks the count)
+			}
+			for i := 0; i < st.NumFields(); i++ {
+				f := st.Field(i).Name()
+				v, listed := keys[f]
+				switch {
+				case !listed && derived[tn+"."+f]:
+				case !listed:
+					bad = append(bad, fmt.Sprintf("%s: the clone of a %s leaves out field %s: every inlined copy has its zero value", g.Where(cl.Pos()), tn, f))
+				case !strings.Contains(v, "."+f) && !isIdentText(v):
+					bad = append(bad, fmt.Sprintf("%s: field %s of the cloned %s is %s, not taken from the same field of the source", g.Where(cl.Pos()), f, tn, abbreviate(v)))
+				}
+			}
+			return true
+		})
+	}
+	sort.Strings(bad)
+	r.Check(len(bad) == 0 && n >= 8, rule, "G.ast.cloneExpr:clone-keeps-every-field", "", g.Where(ce.Pos()), fmt.Sprintf("%d clone literals list every field of their kind (analysis flags aside), each from the same field of the source", n), strings.Join(bad, "; "))
+}
+
+func isIdentText(s string) bool {
+	if s == "" {
+		return false
+	}
+	for i, ch := range s {
+		if !(ch == '_' || ch >= 'a' && ch <= 'z' || ch >= 'A' && ch <= 'Z' || i > 0 && ch >= '0' && ch <= '9') {
+			return false
+		}
+	}
+	return true
 }
